@@ -57,12 +57,15 @@ theorem ord_newSlot {tcp : Bool} {c c' : Lane} {s : Slot} {pkt : Bytes} {fk : Fl
       simp at this; omega
 
 /-- a new single-packet slot at the end whose packet belongs to no flow's ordered part (pure ACK) -/
-theorem ord_newSlot_free {tcp : Bool} {c : Lane} {s : Slot} {pkt : Bytes}
-    (hO : OrdInv tcp c) (hg : s.ghost = [pkt]) (hfree : ∀ f, qf f pkt = false) :
-    OrdInv tcp { c with slots := c.slots ++ [s] } := by
+theorem ord_newSlot_free {tcp : Bool} {c c' : Lane} {s : Slot} {pkt : Bytes}
+    (hO : OrdInv tcp c) (hslots : c'.slots = c.slots ++ [s]) (hopen : c'.openSlots = c.openSlots)
+    (hg : s.ghost = [pkt]) (hfree : ∀ f, qf f pkt = false) :
+    OrdInv tcp c' := by
   constructor
-  · exact hO.wf
+  · intro k i hk; rw [hopen] at hk; exact hO.wf k i hk
   · intro k i hk j sj q hij hsj hq
+    rw [hopen] at hk
+    rw [hslots] at hsj
     rcases getElem?_append_singleton hsj with hold | ⟨_, hs⟩
     · exact hO.later k i hk j sj q hij hold hq
     · subst hs
@@ -72,7 +75,7 @@ theorem ord_newSlot_free {tcp : Bool} {c : Lane} {s : Slot} {pkt : Bytes}
       exact hfree _
 
 theorem ord_barrier {tcp : Bool} (c : Lane) (pkt : Bytes) : OrdInv tcp (c.sealAllOpen.addVerbatim pkt) := by
-  constructor <;> intro k i h <;> simp [Lane.sealAllOpen, Lane.addVerbatim, omLookup] at h
+  constructor <;> intro k i h <;> simp [Lane.sealAllOpen, omLookup] at h
 
 theorem omLookup_sealFlow {c : Lane} {fk k : FlowKey} {i : Nat}
     (h : omLookup (c.sealFlow fk).openSlots k = some i) : k ≠ fk ∧ omLookup c.openSlots k = some i := by
@@ -126,25 +129,27 @@ theorem filter_set {P : Bytes → Bool} {l : List Slot} {i : Nat} {s s' : Slot} 
 theorem sealVerbatim_ord {tcp : Bool} {c : Lane} {pkt : Bytes} {fk : FlowKey} (hO : OrdInv tcp c)
     (hfl : flowOf pkt = some (keyFlow tcp fk)) (hwf : WFKey fk) :
     OrdInv tcp ((c.sealFlow fk).addVerbatim pkt) := by
-  apply ord_newSlot (c := c) (s := { verbatim := true, rawPkt := pkt, ghost := [pkt] }) hO _ rfl hfl hwf
+  apply ord_newSlot (c := c)
+    (s := { (c.sealFlow fk).take.1 with verbatim := true, rawPkt := pkt, ghost := [pkt] }) hO _ rfl hfl hwf
   · intro k i hk
+    rw [addVerbatim_openSlots] at hk
     exact Or.inl (omLookup_sealFlow hk)
-  · simp [Lane.addVerbatim, slots_sealFlow]
+  · simp [slots_sealFlow]
 
 theorem seed_ord {tcp : Bool} {c : Lane} {pkt : Bytes} {info : Parsed} (hO : OrdInv tcp c)
     (hfl : flowOf pkt = some (keyFlow tcp info.fk)) (hwf : WFKey info.fk) :
     OrdInv tcp (c.seed tcp pkt info) := by
-  unfold Lane.seed
-  rw [bufSize_eq]
+  rw [seed_eq]
   by_cases hbig : info.hdrLen + info.payLen > 65535
   · rw [if_pos hbig]; exact sealVerbatim_ord hO hfl hwf
   · rw [if_neg hbig]
-    simp only
+    unfold Lane.seedTaken
+    simp only [seedSlotFrom_eq, take_slots, take_openSlots]
     by_cases hp : tcp = true ∧ hasPsh info.flags = true
     · rw [if_pos hp]
       apply ord_newSlot (c := c) (s := seedSlot tcp pkt info) hO _ rfl hfl hwf
       · intro k i hk
-        have := omLookup_sealFlow (c := { c with slots := c.slots ++ [seedSlot tcp pkt info] }) hk
+        have := omLookup_sealFlow hk
         exact Or.inl this
       · rw [slots_sealFlow]
     · rw [if_neg hp]
@@ -195,7 +200,7 @@ theorem commitParsed_ord {tcp : Bool} {c : Lane} {pkt : Bytes} {iphl : Nat} {inf
             | false => rfl
             | true => exact absurd (And.intro rfl (Or.inr h)) hadm
           exact pureAck_parsed hparse (by simpa using hproto) hz ha ho
-        exact ⟨ord_newSlot_free hO rfl (qf_pureAck hpa),
+        exact ⟨ord_newSlot_free hO (addVerbatim_slots c pkt) (addVerbatim_openSlots c pkt) rfl (qf_pureAck hpa),
           fun f => filter_lanePkts_append f _ _ _ (lanePkts_addVerbatim _ _)⟩
       | false =>
         simp only [Bool.false_eq_true, ↓reduceIte]
